@@ -54,6 +54,14 @@ fn main() {
             p3r_verif_harness::forge::demo();
             0
         }
+        "layers" => p3r_verif_harness::layers::cmd(&args[2..]),
+        "layers-gen" => p3r_verif_harness::layers::cmd_gen(&args[2..]),
+        "stark" => p3r_verif_harness::stark::cmd(&args[2..]),
+        "stark-gen" => p3r_verif_harness::stark::cmd_gen(&args[2..]),
+        "metadata" => p3r_verif_harness::metadata::cmd(&args[2..]),
+        "metadata-gen" => p3r_verif_harness::metadata::cmd_gen(&args[2..]),
+        "metadata-debug-cap" => p3r_verif_harness::metadata::cmd_debug_cap(&args[2..]),
+        "metadata-debug" => p3r_verif_harness::metadata::cmd_debug(&args[2..]),
         "show" => {
             // p3r show < one replay record on stdin: print the real compiled circuit
             let mut line = String::new();
